@@ -244,6 +244,9 @@ def replay(rec: dict) -> bool:
     rp = rec["replay"]
     if "ops" in rp and ("zoo_seed" in rp or "gen_family" in rp or "scenario" in rp) and "req" in rp and "state" in rp:
         return rcon.replay(rp, registry())   # a contract-search replay
+    if "setup_ops" in rp:                    # recorded by the static part's rigs (R-schema / R-guards)
+        from harness.props import c05x
+        return c05x.replay(rec)
     cfg = scen.load_cfg(scen.shipped()[rp["scenario"]])
     game = scen.make_game(cfg)
     sim = game.simulation
